@@ -1154,10 +1154,10 @@ class Arithmetic(Expr):
         # check for single ASCII characters
         if self.expr.startswith('\'') and self.expr.endswith('\''):
             c = self.expr[1:-1]
-            c = c.encode('utf-8').decode('unicode_escape')
             try:
+                c = c.encode('utf-8').decode('unicode_escape')
                 return ord(c)
-            except TypeError:
+            except (TypeError, UnicodeDecodeError):
                 raise AssemblerError('invalid char literal in expr: "{}"'.format(self.expr), line)
 
         try:
@@ -2155,7 +2155,10 @@ def lex_tokens(line):
     match = RE_ERROR.match(line.contents)
     if match is not None:
         message = match.group(1)
-        message = message.encode('utf-8').decode('unicode_escape')
+        try:
+            message = message.encode('utf-8').decode('unicode_escape')
+        except UnicodeDecodeError:
+            raise AssemblerError('invalid escape sequence in error message', line)
         tokens = ['error', message]
         return LineTokens(line, tokens)
 
@@ -2166,7 +2169,10 @@ def lex_tokens(line):
         # unicode_escape decodes bytes as latin-1: keep non-ASCII text intact
         # (a lone backslash must not fuse with the \u escape of the character after it)
         value = re.sub(r'(?<!\\)((?:\\\\)*)\\(?=[^\x00-\xff])', r'\1\\\\', value)
-        value = value.encode('latin-1', 'backslashreplace').decode('unicode_escape')
+        try:
+            value = value.encode('latin-1', 'backslashreplace').decode('unicode_escape')
+        except UnicodeDecodeError:
+            raise AssemblerError('invalid escape sequence in string', line)
         tokens = ['string', value]
         return LineTokens(line, tokens)
 
